@@ -47,7 +47,9 @@ def make_series(rng, nmsgs, wraps, tz_min):
     locs.reverse()
     # small backward jitter (under a day) now and then: two neighbours less than 12 h apart change places
     for k in range(0, len(locs) - 1):
-        if rng.random() < 0.15 and 0 < locs[k + 1] - locs[k] < 12 * 3600:
+        # (not across a New Year: "Jan 1 00:00 / Dec 31 23:00 / Jan 1 00:00:01" can be dated in two ways that both keep
+        #  time from running backwards by more than a day -- the property does not say which)
+        if rng.random() < 0.15 and 0 < locs[k + 1] - locs[k] < 12 * 3600 and time.gmtime(locs[k]).tm_year == time.gmtime(locs[k + 1]).tm_year:
             locs[k], locs[k + 1] = locs[k + 1], locs[k]
     # the documented limitation (Issue #245) is excluded: no series with a 29 February message that is followed by a
     # message of a later year (the series is drawn again rather than thinned, which would merge two gaps)
@@ -82,7 +84,10 @@ def run(pid, tier, seed):
             # the leap year itself, so this is not the documented Issue #245 exclusion)
             forced = [[(2023, 6, 30, 23, 6, 7), (2024, 2, 29, 23, 6, 7), (2024, 12, 2, 23, 6, 7)],
                       [(2023, 12, 31, 23, 0, 0), (2024, 2, 29, 0, 0, 0), (2024, 2, 29, 12, 0, 0)],
-                      [(2019, 3, 1, 1, 2, 3), (2019, 11, 5, 1, 2, 3), (2020, 2, 29, 4, 5, 6), (2020, 3, 1, 0, 0, 1)]]
+                      [(2019, 3, 1, 1, 2, 3), (2019, 11, 5, 1, 2, 3), (2020, 2, 29, 4, 5, 6), (2020, 3, 1, 0, 0, 1)],
+                      # (a century year that IS a leap year, and the wrap into it)
+                      [(1999, 12, 30, 10, 0, 0), (2000, 2, 27, 1, 0, 0), (2000, 2, 29, 12, 0, 0), (2000, 3, 1, 0, 0, 0)],
+                      [(2000, 2, 28, 23, 59, 59), (2000, 2, 29, 0, 0, 0), (2000, 12, 31, 23, 59, 59)]]
             if fi < len(forced):
                 locs = [calendar.timegm(x + (0, 0, 0)) for x in forced[fi]]
                 wraps = 1
@@ -97,7 +102,7 @@ def run(pid, tier, seed):
             ly = time.gmtime(last).tm_year
             end_of_year = calendar.timegm((ly, 12, 31, 23, 59, 59, 0, 0, 0))
             mt_local = rng.choice([last, last + 1, min(end_of_year, last + 86400 * 3), end_of_year - rng.randrange(0, 3600)])
-            mt_local = max(mt_local, last)
+            mt_local = min(max(mt_local, last), end_of_year)      # (in the last message's year, by the property's own premise)
             mtime = mt_local - tz_min * 60
             # (every stored form comes round with every block size: not left to chance)
             CONTS = ["plain", "gz", "bz2", "tar", "xz", "gz-fname", "lz4", "gz-mtime0", "plain"]
